@@ -17,17 +17,19 @@ head = f"""## Appendix: Seeded changes (independent sub-agents) and which checks
 
 Each change was produced by a fresh sub-agent that saw only the property text and a scratch worktree; it compiles,
 passes the 84 tests, and its demonstration fails with it and passes without it (`tools/seedverify.sh`, confirmed
-here in a scratch worktree). `tools/seedtest.sh` applies it to /repo, runs the check, and reverts. Six rounds, {n} changes
+here in a scratch worktree). `tools/seedtest.sh` applies it to /repo, runs the check, and reverts. Seven rounds, {n} changes
 (variants a/b; c/d with different mechanisms; e/f aimed at cooperating sites, operation sequences on one tree object, the
-command layer and boundary inputs; g/h, i/j and k/l aimed at whatever the earlier ones had not used: later trees of a file,
+command layer and boundary inputs; g/h, i/j, k/l and m/n aimed at whatever the earlier ones had not used: later trees of a file,
 state left on an object by an earlier call, absent versus zero values, fast paths for special shapes, counts beyond one byte,
 half-done results reported as success, layouts and spellings other programs use). {missed} were missed by the first
 version of a check and led to a stronger workload (marked MISSED … After …); all of those are caught by the quick tier at
 VERIF_SEED=1 now; `tools/seedregress.py` re-applies every change to a scratch copy of the repository and re-runs the check(s)
 named here (last full run, over the first 200: all 196 changes outside the documented non-detections reported; four old patches needed a
-`patch.rebased.diff` because later fix commits touched the same lines). {len(other)} thread-count changes submitted under C10/C18 ({', '.join(other)}) are decided by C11. {len(nd)} ({', '.join(nd)}) are
-documented non-detections because the changed behaviour lies outside what the property states (an oracle for it would alarm
-on code where the property holds, or no user-reachable execution shows it). What the misses taught, as generic workload
+`patch.rebased.diff` because later fix commits touched the same lines). {len(other)} changes ({', '.join(other)}) are not visible to the check of the property they were
+filed under and are decided by another check, named in their row (thread counts and interleavings by C11, a reverted fix by C03).
+{len(nd)} are not detected: C04-f, C05-d, C05-n, C06-m, C15-d, C16-h and C16-n because the changed behaviour lies outside what the property
+states (an oracle for it would alarm on code where the property holds, or no user-reachable execution shows it); C18-m and C19-n
+are misses of the machinery found in the last round and left open for lack of time (their meta.json says what would catch them). What the misses taught, as generic workload
 rules now applied across the checks: give commands files of SEVERAL trees with DIFFERENT tip sets and sizes; offer inputs as
 file / gzip / stdin / Nexus / PhyloXML and let commands write to -o files; combine options; pass tree objects WITH A PAST
 (indexed, then renamed or re-rooted) to library functions; keep one generator/handle across edits; undo later rather than at
